@@ -242,7 +242,7 @@ def hostile_cases(tier):
         ms = b'To: user1@example.com\nSubject: ' + raw + b'\nX-Id: 1\nX-Trailer: last\n\nthe body\nsecond line\n'
         pats = [('dot', '(.*)'), ('neg', '([^x]*)')] if tier != 'quick' else [('dot', '(.*)')]
         for pn, pat in pats:
-            cap = line1(dec)
+            cap = san(line1(dec))       # `.` matches a CR; message_set_header turns it into a space (4ac7c48)
             for an, act, stages in [('add', 'add-header "X-Copy" "\\1"', [[(b'X-Copy', seen(cap))]]),
                                     ('label', 'label "\\1"', [[(XL, seen(cap))]])]:
                 if an == 'label' and not seen(cap):
@@ -250,6 +250,37 @@ def hostile_cases(tier):
                 c = Case('hostile-capture-%s-%s-%s' % (hn, pn, an), md % ('header "Subject" /%s/ %s' % (pat, act)), ms, stages, exact=True)
                 c.fieldcheck = True
                 C.append(c)
+        # captures that DO contain the line breaks (mdsort 4ac7c48 turns them into spaces when the header is set): a matching list
+        # matches a newline also under REG_NEWLINE - `(([[:space:]]|[^[:space:]])+)` is the whole decoded value; a non-matching list
+        # does not - `([^a-z]*)` stops at the newline; a literal newline in the pattern matches itself
+        whole = seen(san(dec))
+        lits = [('class', '(([[:space:]]|[^[:space:]])+)', whole)]
+        upto = bytearray()
+        for ch in dec:
+            if 97 <= ch <= 122 or ch == 10:
+                break
+            upto.append(ch)
+        lits.append(('negclass', '([^a-z]*)', seen(san(bytes(upto)))))
+        if dec and all(65 <= ch <= 90 or 97 <= ch <= 122 or ch == 10 for ch in dec) and b'\n' in dec:
+            lits.append(('literal-newline', '(%s)' % dec.decode('latin-1'), whole))
+        if tier == 'quick':
+            lits = [x for x in lits if x[0] != 'negclass']
+        for pn, pat, cap in lits:
+            for an, act, stages in [('add', 'add-header "X-Copy" "\\1"', [[(b'X-Copy', cap)]]), ('label', 'label "\\1"', [[(XL, cap)]])]:
+                if (an == 'label' and not cap) or (tier == 'quick' and an == 'label' and pn != 'class'):
+                    continue
+                c = Case('hostile-capture-%s-%s-%s' % (hn, pn, an), md % ('header "Subject" /%s/ %s' % (pat, act)), ms, stages, exact=True)
+                c.fieldcheck = True
+                C.append(c)
+    # configured values that hold line breaks themselves (a string literal of the configuration may span lines)
+    mc = b'To: user1@example.com\nSubject: plain\nX-Id: 1\nX-Trailer: last\n\nthe body\nsecond line\n'
+    for vn, val in [('nl', b'v1\nv2'), ('nl2', b'v1\n\nEvil: x\n\nbody'), ('leadnl', b'\nv1'), ('trailnl', b'v1\n'), ('cr', b'v1\rv2')]:
+        c = Case('hostile-config-%s-add' % vn, md % ('all add-header "X-Added" "%s"' % val.decode('latin-1')), mc, [[(XA, seen(san(val)))]], exact=True)
+        c.fieldcheck = True
+        C.append(c)
+        c = Case('hostile-config-%s-label' % vn, md % ('all label "%s"' % val.decode('latin-1')), mc, [[(XL, seen(san(val)))]], exact=True)
+        c.fieldcheck = True
+        C.append(c)
     return C
 
 
@@ -428,7 +459,9 @@ def stage(rep, tools):
         'message_content_in_set_header_scenarios': sum(1 for c in cs if c.fieldcheck),
         'message_content_in_set_header_rule': 'existing X-Label / Subject values whose encoded words decode to LF, CRLF, CR, control bytes, leading LF / SP / TAB, a '
                                               'header look-alike, two adjacent words; label (appends to the decoded text), label twice, label + add-header, two '
-                                              'X-Label fields, and the decoded value captured by (.*) / ([^x]*) into add-header / label; judged by Spec.rewriteOk '
+                                              'X-Label fields, the decoded value captured by (.*) / ([^x]*) (up to the line break) and by a matching list, ([^a-z]*), a literal '
+                                              'newline in the pattern (line breaks inside the capture) into add-header / label, configured add-header / label '
+                                              'strings that span lines; judged by Spec.rewriteOk '
                                               'for the value a reader sees and by the field names of the rewritten header block',
         'exact_size_rule': 'undisturbed runs in which a value being built, the header block or the whole message ends exactly on, one below and one above a '
                            'capacity of the growable buffer it passes through (sizes read from the buffer_alloc() calls of the source): existing X-Label value + '
